@@ -101,3 +101,239 @@ Example C17_example_invariant_nontrivial :
   cache_bytes o1 = 40 /\ cache_bytes o2 = 80 /\ r_state o2 = Receiving
   /\ r_state o3 = Errored /\ cache_bytes o3 = 0.
 Proof. vm_compute. repeat split. Qed.
+
+(* ===== block: C17Cleanup ===== *)
+(* The cleanup clause ("after the object and session timeouts have elapsed a cleanup releases
+   everything associated with stalled objects, unfinished FDT instances and idle sessions"), the
+   abandon rule of the packet cache stated exactly, and the honest reading of "bounded by
+   configuration".  The wall-clock time-outs are inputs of the model: RvCleanup now expired
+   expired_fdt names the TOIs / FDT instance ids whose time-out has elapsed. *)
+From FluteV Require Import Proofs.C17Cleanup.
+From FluteV Require Proofs.C09Full Proofs.RecvTotalProofs.
+
+(* (G1) the state after a cleanup, exactly, for EVERY state r (reachable or not):
+   objects: those not named, unchanged, in the same order; completed list, current FDT instances,
+   close flag: untouched; failed list: minus the named TOIs that were in the map; FDT receivers:
+   expiry flag refreshed, then only Complete ones and un-named Receiving ones are kept *)
+Theorem C17_cleanup_exact : forall E parse_fdt cfg r c now expired expired_fdt,
+  snd (fst (recv_step E parse_fdt cfg r (RvCleanup now expired expired_fdt) c)) = cleanup_result now expired expired_fdt r
+  /\ fst (fst (recv_step E parse_fdt cfg r (RvCleanup now expired expired_fdt) c)) = POk.
+Proof. exact cleanup_state. Qed.
+Print Assumptions C17_cleanup_exact.
+
+(* (a) no object named by [expired] remains; the model exempts NO object (whatever its state, with
+   or without FDT, with or without an open writer) *)
+Theorem C17_cleanup_releases_objects : forall now expired expired_fdt r,
+  (forall q, In q (rv_objects (cleanup_result now expired expired_fdt r)) -> memN (fst q) expired = false)
+  /\ (forall toi, memN toi expired = true -> get_obj (cleanup_result now expired expired_fdt r) toi = None).
+Proof. exact cleanup_releases_objects_both. Qed.
+Print Assumptions C17_cleanup_releases_objects.
+
+(* (b) FDT receivers: whatever remains is Complete, or Receiving and not named - whatever
+   cf_exp_check says (D17, C17d); it is a receiver of the state before, same key *)
+Theorem C17_cleanup_releases_fdt : forall now expired expired_fdt r q,
+  In q (rv_fdt_receivers (cleanup_result now expired expired_fdt r)) ->
+  (fr_state (snd q) = FComplete \/ (fr_state (snd q) = FReceiving /\ memN (fst q) expired_fdt = false))
+  /\ exists q0, In q0 (rv_fdt_receivers r) /\ q = (fst q0, fr_update_expired (snd q0) now) /\ fr_state (snd q0) = fr_state (snd q).
+Proof. exact cleanup_releases_fdt_both. Qed.
+Print Assumptions C17_cleanup_releases_fdt.
+
+(* (c) the ledger, the item count and the decoder count do not grow *)
+Theorem C17_cleanup_ledger : forall now expired expired_fdt r,
+  recv_ledger (cleanup_result now expired expired_fdt r) <= recv_ledger r
+  /\ recv_items (cleanup_result now expired expired_fdt r) <= recv_items r
+  /\ recv_decoders (cleanup_result now expired expired_fdt r) <= recv_decoders r.
+Proof. exact cleanup_ledger_le. Qed.
+Print Assumptions C17_cleanup_ledger.
+
+(* (d) frame: everything that is not named is untouched *)
+Theorem C17_cleanup_frame : forall now expired expired_fdt r,
+  let r' := cleanup_result now expired expired_fdt r in
+  rv_objects r' = filter (fun q => negb (memN (fst q) expired)) (rv_objects r)
+  /\ (forall q, In q (rv_objects r) -> memN (fst q) expired = false -> In q (rv_objects r'))
+  /\ (forall toi, memN toi expired = false -> get_obj r' toi = get_obj r toi)
+  /\ rv_completed r' = rv_completed r /\ rv_fdt_current r' = rv_fdt_current r /\ rv_closed r' = rv_closed r
+  /\ (forall t, In t (rv_error r') <-> In t (rv_error r) /\ ~ (In t expired /\ In t (map fst (rv_objects r)))).
+Proof. exact cleanup_frame. Qed.
+Print Assumptions C17_cleanup_frame.
+Theorem C17_cleanup_fdt_unnamed_kept : forall now expired expired_fdt r q,
+  In q (rv_fdt_receivers r) -> fr_state (snd q) = FReceiving -> memN (fst q) expired_fdt = false ->
+  In q (rv_fdt_receivers (cleanup_result now expired expired_fdt r)).
+Proof. exact cleanup_fdt_unnamed_kept. Qed.
+Print Assumptions C17_cleanup_fdt_unnamed_kept.
+
+(* (d) writers: a cleanup calls nothing but error() on writers of released objects ... *)
+Theorem C17_cleanup_calls : forall E parse_fdt cfg r c now expired expired_fdt,
+  exists ext, c_log (snd (recv_step E parse_fdt cfg r (RvCleanup now expired expired_fdt) c)) = c_log c ++ ext
+              /\ Forall (released_writer_ev (rv_objects r) expired) ext.
+Proof. exact cleanup_calls_only_released. Qed.
+Print Assumptions C17_cleanup_calls.
+(* ... and in every reachable state every released object whose writer was opened gets its
+   terminal call (open ... error: the C09 automaton is in PhDone) *)
+Theorem C17_cleanup_terminal_calls : forall E parse_fdt cfg evs,
+  let '(_, r, c) := recv_run E parse_fdt cfg recv0 evs ctx0 in
+  forall now expired expired_fdt k o w,
+    In (k, o) (rv_objects r) -> memN k expired = true -> r_writer o = Some (w, WOpened) ->
+    C09Full.runw w (c_log (snd (recv_step E parse_fdt cfg r (RvCleanup now expired expired_fdt) c))) = Some PhDone.
+Proof. exact cleanup_terminal_calls_history. Qed.
+Print Assumptions C17_cleanup_terminal_calls.
+
+(* (e) every reachable state: when the time-out of every object and of every unfinished FDT
+   instance has elapsed, the cleanup leaves no object and no FDT receiver; what remains held is
+   the (at most 10) current FDT instances, which no time-out releases *)
+Theorem C17_cleanup_everything : forall E parse_fdt cfg evs,
+  let '(_, r, c) := recv_run E parse_fdt cfg recv0 evs ctx0 in
+  forall now expired expired_fdt,
+    (forall q, In q (rv_objects r) -> memN (fst q) expired = true) ->
+    (forall q, In q (rv_fdt_receivers r) -> fr_state (snd q) = FReceiving -> memN (fst q) expired_fdt = true) ->
+    let r' := snd (fst (recv_step E parse_fdt cfg r (RvCleanup now expired expired_fdt) c)) in
+    rv_objects r' = [] /\ rv_fdt_receivers r' = []
+    /\ rv_fdt_current r' = rv_fdt_current r /\ (length (rv_fdt_current r) <= 10)%nat
+    /\ recv_ledger r' = sumN' (map fdt_ledger (rv_fdt_current r)).
+Proof. exact cleanup_all_reachable. Qed.
+Print Assumptions C17_cleanup_everything.
+
+(* every reachable state, no premise on the inputs: every object's limit is the configured cache
+   size; FDT receivers are filed under their own id and are Receiving or Expired *)
+Theorem C17_reachable_invariants : forall E parse_fdt cfg evs,
+  let '(_, r, _) := recv_run E parse_fdt cfg recv0 evs ctx0 in
+  Forall (fun q => max_is_cfg cfg (snd q)) (rv_objects r) /\ FI r.
+Proof. exact reachable_invariants. Qed.
+Print Assumptions C17_reachable_invariants.
+
+(* (G2) the abandon rule of the packet cache, exactly.  One push on an object without OTI by a
+   packet without OTI: refused - the object abandoned - iff the counter has ALREADY reached the
+   limit; the symbol is not looked at *)
+Theorem C17_cache_rule_one_push : forall E p o c,
+  r_state o = Receiving -> r_oti o = None -> a_oti p = None ->
+  or_push E p o c =
+  if r_max o <=? r_cache_size o then error (RecvTotalProofs.or_push_pre p o) false c
+  else (cache_put p (RecvTotalProofs.or_push_pre p o), c).
+Proof. exact or_push_nooti. Qed.
+Print Assumptions C17_cache_rule_one_push.
+(* a run p1..pk: abandoned (Errored, cache and blocks released) by the packet [abandon_at] finds,
+   otherwise everything is cached and counted by a_datalen *)
+Theorem C17_cache_abandon_rule : forall E ps o c,
+  r_state o = Receiving -> r_oti o = None -> Forall (fun p => a_oti p = None) ps ->
+  let o' := fst (push_all E ps o c) in
+  match abandon_at (r_max o) (r_cache_size o) ps with
+  | None => r_state o' = Receiving /\ r_oti o' = None /\ r_cache o' = r_cache o ++ ps
+            /\ r_cache_size o' = r_cache_size o + bytes_of ps /\ r_max o' = r_max o
+  | Some j => r_state o' = Errored /\ r_cache o' = [] /\ r_cache_size o' = 0 /\ r_blocks o' = [] /\ r_max o' = r_max o
+  end.
+Proof. exact cache_abandon_rule. Qed.
+Print Assumptions C17_cache_abandon_rule.
+(* [abandon_at] is the FIRST packet before which the cached bytes already reach the limit *)
+Theorem C17_abandon_at_first : forall ps mx sz j,
+  abandon_at mx sz ps = Some j <->
+  (j < length ps)%nat /\ mx <= sz + bytes_of (firstn j ps)
+  /\ forall i, (i < j)%nat -> sz + bytes_of (firstn i ps) < mx.
+Proof. exact abandon_at_some. Qed.
+Print Assumptions C17_abandon_at_first.
+Theorem C17_abandon_at_never : forall ps mx sz,
+  abandon_at mx sz ps = None <-> forall i, (i < length ps)%nat -> sz + bytes_of (firstn i ps) < mx.
+Proof. exact abandon_at_none. Qed.
+Print Assumptions C17_abandon_at_never.
+(* so the cached bytes exceed the limit by less than the last datagram cached *)
+Theorem C17_cache_exceeds_by_less_than_one_datagram : forall E ps p o c,
+  r_state o = Receiving -> r_oti o = None -> Forall (fun p => a_oti p = None) (ps ++ [p]) ->
+  r_cache_size o < r_max o \/ ps <> [] ->
+  let o' := fst (push_all E (ps ++ [p]) o c) in
+  r_state o' = Receiving -> r_cache_size o' < r_max o + a_datalen p.
+Proof. exact cache_exceeds_by_less_than_last_datagram. Qed.
+Print Assumptions C17_cache_exceeds_by_less_than_one_datagram.
+(* the NUMBER of cached packets is bounded under the premise that every datagram is at least m > 0
+   bytes long (on the wire: the LCT header) ... *)
+Theorem C17_cache_packet_count : forall E m ps o c,
+  r_state o = Receiving -> r_oti o = None -> r_cache o = [] -> r_cache_size o = 0 ->
+  Forall (fun p => a_oti p = None) ps -> Forall (fun p => m <= a_datalen p) ps -> 0 < m ->
+  let o' := fst (push_all E ps o c) in
+  lenN_ (r_cache o') * m < r_max o + m.
+Proof. exact cache_packet_count_bounded. Qed.
+Print Assumptions C17_cache_packet_count.
+(* ... and not without it: the model does not know that a_datalen > 0 *)
+Theorem C17_cache_packet_count_needs_premise : forall E p toi mx c n,
+  a_oti p = None -> a_datalen p = 0 -> 0 < mx ->
+  r_state (fst (push_all E (repeat p n) (or_new toi mx) c)) = Receiving
+  /\ r_cache (fst (push_all E (repeat p n) (or_new toi mx) c)) = repeat p n.
+Proof. exact cache_packet_count_unbounded_if_zero_length. Qed.
+Print Assumptions C17_cache_packet_count_needs_premise.
+(* receiver level: the abandoned object leaves the map and is counted in the failed list, which
+   is trimmed to cf_max_err by forgetting the smallest TOIs first *)
+Theorem C17_abandoned_object_counted : forall E cfg p now r c o,
+  existsb (N.eqb (a_toi p)) (rv_completed r) = false -> existsb (N.eqb (a_toi p)) (rv_error r) = false ->
+  get_obj r (a_toi p) = Some o -> r_state o = Receiving -> r_oti o = None -> a_oti p = None ->
+  r_max o <= r_cache_size o ->
+  let r' := snd (fst (push_obj E cfg p now r c)) in
+  let l := insert_sorted (a_toi p) (rv_error r) in
+  get_obj r' (a_toi p) = None
+  /\ rv_error r' = skipn (length l - N.to_nat (cf_max_err cfg)) l
+  /\ (length (rv_error r') <= N.to_nat (cf_max_err cfg))%nat.
+Proof. exact push_obj_abandons. Qed.
+Print Assumptions C17_abandoned_object_counted.
+
+(* (G3) memory bounded by configuration, the part that is proved: the bytes the receiver ACCOUNTS
+   (cached datagrams + declared lengths of the allocated blocks) are at most
+   (objects in flight) * (2 * cache + maxpkt + 2 * maxblk); the failed list and the current FDT
+   instances are bounded by configuration alone.  The number of objects in flight (and of FDT
+   receivers) is NOT bounded by configuration: it is bounded by the traffic (distinct TOIs / FDT
+   instance ids) and released by the time-outs (C17_cleanup_everything). *)
+Theorem C17_memory_bounded_by_configuration_partial : forall E parse_fdt cfg evs maxpkt maxblk,
+  C17_inputs_bounded parse_fdt evs maxpkt maxblk ->
+  let '(_, r, _) := recv_run E parse_fdt cfg recv0 evs ctx0 in
+  recv_accounted r <= lenN_ (rv_objects r) * per_object_bound cfg maxpkt maxblk
+  /\ lenN_ (rv_error r) <= cf_max_err cfg
+  /\ lenN_ (rv_fdt_current r) <= 10.
+Proof. exact memory_bounded_partial. Qed.
+Print Assumptions C17_memory_bounded_by_configuration_partial.
+(* the full reading (bytes HELD, recv_ledger, bounded the same way) is FALSE of the model:
+   the No-Code block decoder keeps every symbol as received, whatever its length, while the
+   receiver accounts k * E bytes for the block *)
+Definition C17_memory_bounded_by_configuration_full : Prop := memory_bounded_full.
+Theorem C17_memory_bounded_by_configuration_refuted : ~ C17_memory_bounded_by_configuration_full.
+Proof. exact memory_bounded_full_refuted. Qed.
+Print Assumptions C17_memory_bounded_by_configuration_refuted.
+Example C17_long_symbols_refuted :
+  (P_C17_bounds (c17_ex_cfg 64) 1500 64 c17_long_symbol_final
+   && (recv_ledger c17_long_symbol_final <=? 11 * per_object_bound (c17_ex_cfg 64) 1500 64)) = false
+  /\ recv_accounted c17_long_symbol_final = 64 /\ recv_ledger c17_long_symbol_final = 88200.
+Proof. vm_compute. repeat split. Qed.
+
+(* ---- non-vacuity ---- *)
+(* the cleanup of a state with an announced object (TOI 5, writer open), an unannounced one (TOI 6,
+   two cached datagrams) and two half-received FDT instances (2, 3); with and without the expiry
+   check: naming TOI 5 (and 7, unknown) and instance 2 releases exactly these, the writer of TOI 5
+   gets error() *)
+Example C17_cleanup_example : forall check,
+  let r := snd (fst (c17c_run check)) in
+  let x := c17c_after check [5; 7] [2] in
+  map fst (rv_objects r) = [5; 6] /\ map fst (rv_fdt_receivers r) = [2; 3] /\ recv_ledger r = 88
+  /\ map fst (rv_objects (snd (fst x))) = [6] /\ map fst (rv_fdt_receivers (snd (fst x))) = [3]
+  /\ recv_ledger (snd (fst x)) = 80
+  /\ c_log (snd x) = [EvBuilder 5 WStore; EvOpen (5, 0%nat) true; EvError (5, 0%nat)]
+  /\ C09Full.runw (5, 0%nat) (c_log (snd x)) = Some PhDone.
+Proof. intros [|]; vm_compute; repeat split. Qed.
+Example C17_cleanup_everything_example : forall check,
+  let x := c17c_after check [5; 6] [2; 3] in
+  rv_objects (snd (fst x)) = [] /\ rv_fdt_receivers (snd (fst x)) = [] /\ map fr_id (rv_fdt_current (snd (fst x))) = [1]
+  /\ recv_ledger (snd (fst x)) = 4.
+Proof. intros [|]; vm_compute; repeat split. Qed.
+(* datagrams with an EMPTY symbol count with their whole length: limit 64, 40-byte datagrams:
+   the third one finds 80 >= 64 cached and abandons the object *)
+Example C17_empty_symbols_count :
+  let p := c17c_empty_symbol_pkt in
+  abandon_at 64 0 [p; p; p] = Some 2%nat
+  /\ cache_bytes (fst (push_all c17_ex_env [p; p] (or_new 5 64) ctx0)) = 80
+  /\ r_state (fst (push_all c17_ex_env [p; p] (or_new 5 64) ctx0)) = Receiving
+  /\ r_state (fst (push_all c17_ex_env [p; p; p] (or_new 5 64) ctx0)) = Errored
+  /\ r_cache (fst (push_all c17_ex_env [p; p; p] (or_new 5 64) ctx0)) = [].
+Proof. vm_compute. repeat split. Qed.
+(* a limit of 0 caches nothing: the first datagram without OTI abandons the object *)
+Example C17_zero_limit : r_state (fst (push_all c17_ex_env [c17c_empty_symbol_pkt] (or_new 5 0) ctx0)) = Errored.
+Proof. vm_compute. reflexivity. Qed.
+(* the number of objects in flight follows the traffic: 50 TOIs, 50 objects, each within its bound *)
+Example C17_objects_follow_traffic :
+  let r := snd (fst (recv_run c17_ex_env c17_ex_nofdt (c17_ex_cfg 64) recv0 (c17_many_tois 50) ctx0)) in
+  lenN_ (rv_objects r) = 50 /\ recv_ledger r = 1400 /\ P_C17_bounds (c17_ex_cfg 64) 64 1024 r = true.
+Proof. vm_compute. repeat split. Qed.
+(* ===== end block: C17Cleanup ===== *)
